@@ -6,8 +6,11 @@ defects and seeded changes still surface.
   alternating-ring-tie            an atom has two neighbours that lie in ONE automorphism orbit of the stereo-free graph but are bonded to it
                                   with different bond orders (cyclobutadiene, cyclooctatetraene, bridged cyclobutadienes): Morgan classes tie,
                                   no automorphism fixing the atom exchanges them, `_smiles` breaks the tie by insertion order.
-  symmetric-spiro                 a spiro atom (cut vertex shared by two ring blocks, two neighbours in each) whose four ring neighbours lie in one
-                                  orbit: the neighbours tie although own-ring / other-ring are not equivalent once the traversal has entered a ring.
+  morgan-incomplete               colour refinement (what Morgan refinement computes) leaves atoms of different automorphism orbits in one class
+                                  (dispiro[2.2.2.2]decane: cyclopropane and cyclohexane CH2): ties between non-automorphic atoms.
+  symmetric-spiro                 a spiro atom (cut vertex shared by two ring blocks, two neighbours in each) with a neighbour in each ring lying in one
+                                  orbit and equally far from the start atom of the canonical string: class, class size and breadth-first distance tie
+                                  although own-ring / other-ring are not equivalent once the traversal has entered a ring.
   thiele-sssr-choice              a six-membered ring with alternating double bonds (Kekule form) and a second ring of the same size whose symmetric
                                   difference with it is one smaller ring: only one of the two enters the SSSR, `thiele()` aromatises or not.
   diene-ring-closure-direction    two labelled, conjugated cis/trans double bonds (C=C-C=C) that lie in one ring: when one of them is written as the
@@ -42,19 +45,50 @@ def alternating_ring_tie(m, orb=None):
     return False
 
 
-def symmetric_spiro(m, orb=None):
+def symmetric_spiro(m, orb=None, start=None):
+    """a spiro atom x (cut vertex of two ring blocks, two neighbours in each) with a neighbour y in one ring and z in the other that lie
+    in one orbit AND are equally far (true graph distance) from the atom the canonical string starts with: class, class size and the
+    breadth-first distance from the start - everything `_smiles` sorts by - tie although own-ring / other-ring are not equivalent.
+    `start` is the only observation taken from the library (first written atom of the reference string; None = any start ties)."""
     g = _graph(m)
     blocks = [set(c) for c in nx.biconnected_components(g) if len(c) >= 3]
     if len(blocks) < 2:
         return False
     orb = orb or iso.orbits(m)
+    dist = nx.single_source_shortest_path_length(g, start) if start is not None else None
     for x in nx.articulation_points(g):
         mine = [b for b in blocks if x in b]
         for b1, b2 in itertools.combinations(mine, 2):
             n1 = [y for y in g[x] if y in b1]
             n2 = [y for y in g[x] if y in b2]
-            if len(n1) == 2 and len(n2) == 2 and len({orb[y] for y in n1 + n2}) == 1:
-                return True
+            if len(n1) != 2 or len(n2) != 2:
+                continue
+            for y in n1:
+                for z in n2:
+                    if orb[y] == orb[z] and (dist is None or (y in dist and z in dist and dist[y] == dist[z])):
+                        return True
+    return False
+
+
+def morgan_incomplete(m, orb=None):
+    """colour refinement (1-dimensional Weisfeiler-Leman on element / isotope / charge / radical / hydrogens / in-ring flag and bond orders,
+    the information Morgan refinement sees) leaves two atoms of DIFFERENT automorphism orbits in one class"""
+    orb = orb or iso.orbits(m)
+    g = _graph(m)
+    bridges = {frozenset(e) for e in nx.bridges(g)}
+    col = {n: (iso.atom_key(a), any(frozenset((n, k)) not in bridges for k in m._bonds[n])) for n, a in m.atoms()}
+    while True:
+        new = {n: (col[n], tuple(sorted((b.order, repr(col[k])) for k, b in m._bonds[n].items()))) for n in col}
+        ids = {v: i for i, v in enumerate(sorted(set(map(repr, new.values()))))}
+        new = {n: ids[repr(v)] for n, v in new.items()}
+        if len(set(new.values())) == len(set(map(repr, col.values()))):
+            col = new
+            break
+        col = new
+    seen = {}
+    for n, c in col.items():
+        if seen.setdefault(c, orb[n]) != orb[n]:
+            return True
     return False
 
 
@@ -168,7 +202,13 @@ def c01_family(m, relations):
     orb = iso.orbits(m)
     if alternating_ring_tie(m, orb):
         return 'alternating-ring-tie'
-    if symmetric_spiro(m, orb):
+    if morgan_incomplete(m, orb):
+        return 'morgan-incomplete'
+    try:
+        start = m.smiles_atoms_order[0]
+    except Exception:
+        start = None
+    if symmetric_spiro(m, orb, start):
         return 'symmetric-spiro'
     if set(relations) <= {'respell-chython'} and diene_ring_closure_direction(m):
         return 'diene-ring-closure-direction'  # a fault of the writer: only its own spellings are affected
@@ -192,6 +232,7 @@ def c02_family(m, differences):
 # smallest witnesses per family: fixed, seed-independent, run in both tiers with enough draws that the family key fires in every run
 ANCHORS = {
     'alternating-ring-tie': ('C1=CC=C1', 'C1=CC=CC=CC=C1'),
+    'morgan-incomplete': ('C1CC12CCC1(CC2)CC1',),
     'symmetric-spiro': ('N1CCC2(CC1)CCNCC2', 'C1CC[Si]2(CC1)CCCCC2', 'C1CCCCCCC12CCCCCCC2'),
     'thiele-sssr-choice': ('C1=C2C=CC=C1C2',),
     'diene-ring-closure-direction': ('C1CCCCC/C=C/C=C/1', 'C1CCCCC/C=C\\C=C/1'),
